@@ -225,10 +225,16 @@ impl<Resp> Drop for ResponseGuard<'_, Resp> {
         // closing the receiver before sending the cancel message, it is guaranteed that if the
         // dispatch task misses an early-arriving cancellation message, then it will see the
         // receiver as closed.
+        #[cfg(feature = "verif-hooks")]
+        crate::verif_hooks::yield_point("guard-drop-enter", self.request_id);
         self.response.close();
+        #[cfg(feature = "verif-hooks")]
+        crate::verif_hooks::yield_point("guard-drop-mid", self.request_id);
         if self.cancel {
             self.cancellation.cancel(self.request_id);
         }
+        #[cfg(feature = "verif-hooks")]
+        crate::verif_hooks::yield_point("guard-drop-exit", self.request_id);
     }
 }
 
@@ -283,6 +289,14 @@ pub struct RequestDispatch<Req, Resp, C> {
     /// RequestDispatch::poll, which relies on downcasting the Any to a concrete error type
     /// determined within the poll function.
     terminal_error: Option<ChannelError<dyn Any + Send + Sync + 'static>>,
+}
+
+#[cfg(feature = "verif-hooks")]
+impl<Req, Resp, C> RequestDispatch<Req, Resp, C> {
+    /// (tracked in-flight requests, armed deadline timers).
+    pub fn verif_counts(&self) -> (usize, usize) {
+        self.in_flight_requests.verif_counts()
+    }
 }
 
 impl<Req, Resp, C> RequestDispatch<Req, Resp, C>
